@@ -146,6 +146,12 @@ pub struct BM25Index<T: Tokenizer + Clone> {
     /// they only take the shared side — and this is the first lock a mutation
     /// acquires, so it never nests inside a DashMap shard guard.
     mutation_gate: RwLock<()>,
+
+    /// Ids removed with text other than the text they were indexed with:
+    /// their remaining posting entries are only masked by the id's absence
+    /// from `doc_tokens`, so [`BM25Index::insert`] sweeps them before it
+    /// re-admits such an id. In-memory only — loading prunes stale entries.
+    stale_ids: DashMap<u64, ()>,
 }
 
 #[derive(Default)]
@@ -413,6 +419,7 @@ where
             search_count: AtomicU64::new(0),
             last_saved_version: AtomicU64::new(0),
             mutation_gate: RwLock::new(()),
+            stale_ids: DashMap::new(),
         }
     }
 
@@ -478,6 +485,7 @@ where
             // with an empty `doc_tokens` until then.
             total_tokens: AtomicU64::new(0),
             mutation_gate: RwLock::new(()),
+            stale_ids: DashMap::new(),
         })
     }
 
@@ -785,6 +793,16 @@ where
             });
         }
 
+        // A previous `remove` of this id was given non-original text and left
+        // posting entries behind (see `stale_ids`). Re-admitting the id would
+        // bring them back to life: the document would match terms it no
+        // longer contains, and a bucket that still persists them would
+        // resurrect the id after a later removal and reload. Sweep them out
+        // first, exactly as `purge_ids` does for ids whose text is lost.
+        if !self.doc_tokens.contains_key(&id) && self.stale_ids.remove(&id).is_some() {
+            self.purge_ids_locked(&BTreeSet::from([id]), now_ms);
+        }
+
         // Phase 1: Update the postings collection
         let bucket_id = self.max_bucket_id.load(Ordering::Acquire);
         let tokens: usize = token_freqs.values().sum();
@@ -984,6 +1002,9 @@ where
         let mut buckets_to_update: FxHashMap<u32, FxHashMap<String, usize>> = FxHashMap::default();
         // Remove from inverted index
         let mut maybe_empty_tokens: Vec<String> = Vec::new();
+        // Term occurrences of this document actually dropped from postings;
+        // compared with the document's recorded length below.
+        let mut removed_occurrences = 0usize;
         for (token, _) in token_freqs {
             if let Some(mut posting) = self.postings.get_mut(&token) {
                 // Remove every entry for this document. Duplicates can exist
@@ -996,6 +1017,7 @@ where
                 if removed_vals.is_empty() {
                     continue;
                 }
+                removed_occurrences += removed_vals.iter().map(|(_, tf)| *tf).sum::<usize>();
 
                 let size_decrease = if posting.1.is_empty() {
                     maybe_empty_tokens.push(token.clone());
@@ -1084,6 +1106,13 @@ where
             });
         }
 
+        // `text` did not account for every occurrence the document was indexed
+        // with: entries remain under tokens `text` does not mention. Remember
+        // the id so a later `insert` of it sweeps them (see `stale_ids`).
+        if removed_tokens.is_some_and(|tokens| tokens != removed_occurrences) {
+            self.stale_ids.insert(id, ());
+        }
+
         was_present
     }
 
@@ -1149,7 +1178,12 @@ where
 
         // Shared with other mutations, exclusive against `compact_buckets`.
         let _mutation_guard = self.mutation_gate.read();
+        self.purge_ids_locked(ids, now_ms)
+    }
 
+    /// [`purge_ids`](Self::purge_ids) for a caller that already holds the
+    /// shared side of `mutation_gate` (the gate is not reentrant).
+    fn purge_ids_locked(&self, ids: &BTreeSet<u64>, now_ms: u64) -> usize {
         // Phase 1: drop the document lengths. As in `insert`/`remove`, the
         // token counter follows the `doc_tokens` entries it accounts for.
         let mut removed_docs = 0usize;
